@@ -16,6 +16,13 @@ let hex_of_str (s : str) : string = String.concat "" (List.map (fun c -> Printf.
 let str_of_hex (h : string) : str =
   List.init (String.length h / 2) (fun i -> z_of_int (int_of_string ("0x" ^ String.sub h (2 * i) 2)))
 
+(* record keys: a plain token is a symbol key; "$name" a string key (resolves like a symbol); "#..." a key that is
+   neither (int, char, array ..): encoded with a leading 0 byte (GoConv.nonname_key) *)
+let str_of_key (t : string) : str =
+  if String.length t > 0 && t.[0] = '#' then Z0 :: str_of_string (String.sub t 1 (String.length t - 1))
+  else if String.length t > 0 && t.[0] = '$' then str_of_string (String.sub t 1 (String.length t - 1))
+  else str_of_string t
+
 let rec parse_ty (s : string) : gotype =
   let rest () = String.sub s 1 (String.length s - 1) in
   let after () = String.sub s 2 (String.length s - 2) in
@@ -63,11 +70,11 @@ let parse_value_with (defs : (string, sx) Hashtbl.t) (toks : string list) : sx *
     | "A" -> let n = int_of_string (next ()) in SArr (List.init n (fun _ -> value ()))
     | "R" ->
       let id = next () in let tn = next () in let n = int_of_string (next ()) in
-      let fs = List.init n (fun _ -> let k = next () in let v = value () in (str_of_string k, v)) in
+      let fs = List.init n (fun _ -> let k = next () in let v = value () in (str_of_key k, v)) in
       let r = SRec (z_of_string id, str_of_string tn, fs) in Hashtbl.replace defs id r; r
     | "H" ->
       let id = next () in let n = int_of_string (next ()) in
-      let fs = List.init n (fun _ -> let k = next () in let v = value () in (str_of_string k, v)) in
+      let fs = List.init n (fun _ -> let k = next () in let v = value () in (str_of_key k, v)) in
       let r = SHash (z_of_string id, fs) in Hashtbl.replace defs id r; r
     | _ ->
       (match t.[0] with
@@ -292,7 +299,7 @@ let () =
              steps more
            | "S" :: id :: key :: more ->
              let (v, more) = parse_value_with defs more in
-             cur := set_rec (z_of_string id) (str_of_string key) v !cur;
+             cur := set_rec (z_of_string id) (str_of_key key) v !cur;
              steps more
            | t :: _ -> failwith ("hist: bad step " ^ t) in
          steps rest;
